@@ -320,6 +320,14 @@ func judge(q seqSpec, fc faultCase, frames [][]byte, rwc *faultRWC, recs []sendR
 		}
 		return fmt.Sprintf("%s; Write call #%d (of %d bytes, during send %d) returns (%d, err)%s\n   stream: %s", q, fc.j, q.lens[fc.j], rwc.sendOf[fc.j], fc.k, res, hx(rwc.all))
 	}
+	// fail formats the (long) detail only while it is still kept by vlib
+	fail := func(key, format string, a ...interface{}) {
+		if r.ViolCount[key] >= 3 {
+			r.Fail(key, "")
+			return
+		}
+		r.Fail(key, fmt.Sprintf(format, a...)+"; "+desc())
+	}
 	faultSend := rwc.sendOf[fc.j]
 	sub := "midbuffer"
 	if fc.k == 0 {
@@ -332,26 +340,26 @@ func judge(q seqSpec, fc faultCase, frames [][]byte, rwc *faultRWC, recs []sendR
 		if torn >= 0 {
 			// the property: no further bytes, every later send fails
 			if len(got) > 0 {
-				r.Failf("bytes-after-torn-write/"+sub, "send %d put %d more bytes on the stream after the frame of send %d was torn; %s", s, len(got), torn, desc())
+				fail("bytes-after-torn-write/"+sub, "send %d put %d more bytes on the stream after the frame of send %d was torn", s, len(got), torn)
 			}
 			if !rec.failed() {
-				r.Failf("send-succeeds-after-torn-write/"+sub, "send %d reported success after the frame of send %d was torn; %s", s, torn, desc())
+				fail("send-succeeds-after-torn-write/"+sub, "send %d reported success after the frame of send %d was torn", s, torn)
 			}
 			continue
 		}
 		switch {
 		case !rec.failed():
 			if s == faultSend {
-				r.Failf("send-hides-write-error", "send %d returned nil although a Write failed; %s", s, desc())
+				fail("send-hides-write-error", "send %d returned nil although a Write failed", s)
 			}
 			if !bytes.Equal(got, frames[s]) {
-				r.Failf("successful-send-wrong-bytes", "send %d returned nil but the bytes on the stream are not its frame; %s", s, desc())
+				fail("successful-send-wrong-bytes", "send %d returned nil but the bytes on the stream are not its frame", s)
 			} else {
 				delivered = append(delivered, rec.segs)
 			}
 		default:
 			if !bytes.HasPrefix(frames[s], got) {
-				r.Failf("failed-send-wrote-foreign-bytes", "failed send %d put bytes on the stream that are not a prefix of its frame; %s", s, desc())
+				fail("failed-send-wrote-foreign-bytes", "failed send %d put bytes on the stream that are not a prefix of its frame", s)
 			}
 			if len(got) == len(frames[s]) && len(got) > 0 {
 				// complete frame on the wire but error reported: the peer will see it
@@ -397,7 +405,7 @@ func judge(q seqSpec, fc faultCase, frames [][]byte, rwc *faultRWC, recs []sendR
 			// present and it is the true message, not garbage.
 			r.Outcome("peer-decodes-torn-frame-with-all-words")
 		default:
-			r.Failf("peer-decodes-garbage", "the receiving Decoder returned as message #%d something that is not the next completely written message; %s", n, desc())
+			fail("peer-decodes-garbage", "the receiving Decoder returned as message #%d something that is not the next completely written message", n)
 			return
 		}
 		n++
@@ -406,7 +414,7 @@ func judge(q seqSpec, fc faultCase, frames [][]byte, rwc *faultRWC, recs []sendR
 		}
 	}
 	if n < len(delivered) {
-		r.Failf("peer-loses-complete-frames", "the receiving Decoder returned %d messages but %d complete frames were written; %s", n, len(delivered), desc())
+		fail("peer-loses-complete-frames", "the receiving Decoder returned %d messages but %d complete frames were written", n, len(delivered))
 	}
 }
 
